@@ -6,32 +6,100 @@
   retrievable intact — no torn or foreign bytes are ever returned for a sequence number.  SQL: a failure of either
   statement of save-and-increment leaves neither the message nor the increment behind.
 
-  The statement is FALSE of the code (DESIGN §9 D12).  This file holds: the full statement as `C17_full` (a `def`), witnesses
-  of the failing windows proved on concrete histories (each also replayed on the real store by the `crash` family),
-  the parts that do hold (`C17_partial_*`, `C17_power_cut_irrelevant`, `C17_sql_atomic`).  Clause checklist at the end.
+  The statement is FALSE of the code (DESIGN §9 D12c).  This file holds: the full statement as `C17_full` (a `def`) and its
+  refutation `C17_full_false` (torn 19-byte counter, on a 2-op history); `C17_partial`: the whole conclusion for every history,
+  every operation and every crash point / cut / mode EXCEPT a process crash inside a counter rewrite; `C17_synced_between_ops`;
+  what a raw crash image looked like before the three `fix:` commits (witnesses on concrete states); `C17_sql_atomic`.
+  Clause checklist at the end.
 -/
 import Qfx.Model.Store
 import Qfx.Spec.Store
 import Qfx.Lemmas.Bytes
-open Qfx Qfx.Store
+import Qfx.Lemmas.StoreCrash
+open Qfx Qfx.Store Qfx.Spec.Store
 
-/-! ## the full statement (not a theorem: false in the windows witnessed below) -/
+/-! ## the statement -/
 
-/-- what a fresh store opened on an image reports -/
-def C17_view (img : FS) : Int × Int × (List Bytes × IterEnd) :=
-  let r := FileW.open true img 0
-  (r.st.cache.nextS, r.st.cache.nextT, fileIterate (r.fs.header.getD []) (r.fs.body.getD []) 0 4611686018427387904 0)
+/-- what a fresh syncing store opened on an image reports: NextSenderMsgSeqNum, NextTargetMsgSeqNum, GetMessages over the whole
+    `int` range (messages and ok / err / panic).  In the model the open itself cannot fail (no I/O errors are modelled). -/
+def C17_view (img : FS) : Int × Int × (List Bytes × IterEnd) := recoveredView img
 
-/-- states of a syncing file store reachable from an empty directory by ascending saves -/
-def C17_reachable (w : FileW) : Prop :=
-  ∃ ops : List Op, w = ((FileW.open true {} 0).run ops).1
+/-- the conclusion of C17 about a recovered view `v`, for the abstract store before (`pre`) and after (`post`) the interrupted
+    operation:
+    * every message whose save had completed is returned intact: the whole-range retrieval succeeds and returns the messages
+      of `pre` or of `post` (nothing else — so no torn or foreign bytes either);
+    * each recovered counter equals its value before or after the operation;
+    * if the recovered outbound counter is the advanced one, the messages of `post` are the ones retrievable. -/
+def C17_conclusion (pre post : AStore) (v : Int × Int × (List Bytes × IterEnd)) : Prop :=
+  (v.2.2 = (values pre.msgs, IterEnd.ok) ∨ v.2.2 = (values post.msgs, IterEnd.ok))
+  ∧ (v.1 = pre.sender ∨ v.1 = post.sender) ∧ (v.2.1 = pre.target ∨ v.2.1 = post.target)
+  ∧ (v.1 = post.sender → (post.sender : Int) ≠ pre.sender → v.2.2 = (values post.msgs, IterEnd.ok))
 
-/-- every crash image of every operation on every reachable state recovers to the state before or after the operation -/
+/-- the view recovered from the crash image of operation `o` after history `ops` on a syncing file store that started on an
+    empty directory: the first `i` primitives of `o` completed, `cut` bytes of the write in flight (if primitive `i` is one)
+    reached the file; `mode` = process crash or power loss (everything before `o` was synced, see `C17_synced_between_ops`) -/
+def C17_recovered (ops : List Op) (o : Op) (i cut : Nat) (mode : Mode) : Int × Int × (List Bytes × IterEnd) :=
+  let w := ((FileW.open true {} 0).run ops).1
+  C17_view (crashImage ⟨w.fs, w.fs⟩ (fileOpPrims w.st w.fs w.clock o).2.1 i cut mode)
+
+/-- the full statement: for every history (ascending saves per epoch, numbers within Go's `int`), every operation, every crash
+    point, every cut and both modes.  FALSE of the code: `C17_full_false`. -/
 def C17_full : Prop :=
-  ∀ (w : FileW) (o : Op) (i cut : Nat) (mode : Mode), C17_reachable w →
-    let ps := (fileOpPrims w.st w.fs w.clock o).2.1
-    let v := C17_view (crashImage ⟨w.fs, w.fs⟩ ps i cut mode)
-    v = C17_view w.fs ∨ v = C17_view (w.step o).1.fs
+  ∀ (ops : List Op) (o : Op) (i cut : Nat) (mode : Mode), Asc none (ops ++ [o]) → FitsRun {} (ops ++ [o]) →
+    C17_conclusion (({} : AStore).run ops).1 (((({} : AStore).run ops).1).step o).1 (C17_recovered ops o i cut mode)
+
+/-- the primitives of operation `o` after history `ops` (as reported by the hook of the real store, compared on every run) -/
+def C17_prims (ops : List Op) (o : Op) : List Prim :=
+  let w := ((FileW.open true {} 0).run ops).1
+  (fileOpPrims w.st w.fs w.clock o).2.1
+
+/-- the one recorded window: the process dies INSIDE (`cut ≠ 0`) the in-place rewrite of a counter file -/
+def C17_insideCounterWrite (ops : List Op) (o : Op) (i cut : Nat) : Prop :=
+  ¬ (cut = 0 ∨ ∃ f off data, (C17_prims ops o)[i]? = some (.write f off data) ∧ f ≠ .sender ∧ f ≠ .target)
+
+/-- **C17_partial** — for EVERY history, every operation, every crash point, every cut and both modes, except a process crash
+    inside the in-place rewrite of a 19-byte counter file (the remaining recorded window, `C17_full_false`), the recovered view
+    satisfies the whole conclusion: between primitives, inside the body write, inside the index-line write (since the `fix:` that
+    drops an incomplete trailing index line on open), inside the session-file write, and at every power-loss point (syncing on). -/
+theorem C17_partial (ops : List Op) (o : Op) (i cut : Nat) (mode : Mode)
+    (ha : Asc none (ops ++ [o])) (hf : FitsRun {} (ops ++ [o]))
+    (hpt : mode = .process → ¬ C17_insideCounterWrite ops o i cut) :
+    C17_conclusion (({} : AStore).run ops).1 (((({} : AStore).run ops).1).step o).1 (C17_recovered ops o i cut mode) := by
+  have hpt' : mode = .process → NotInCounterWrite (C17_prims ops o) i cut := fun hm => Classical.not_not.1 (hpt hm)
+  obtain ⟨ha1, ha2⟩ := asc_append ops o none ha
+  obtain ⟨hf1, hf2⟩ := fitsRun_append ops o {} hf
+  obtain ⟨ents, B, hR⟩ := fileR_run_state ops {} _ none [] [] (fileR_init true) ha1 hf1
+  have hsync : ((FileW.open true {} 0).run ops).1.st.sync = true := by
+    rw [run_sync]; simp [FileW.open, fileOpenPrims, refreshOp]
+  exact crash_good _ _ _ ents B o hR hsync ha2 hf2 i cut mode hpt'
+
+/-- the assumption behind the power-loss images of `C17_recovered` ("everything before `o` was synced"): with syncing on, when an
+    operation returns, the durable contents of every file equal the visible contents, and those are the files the next
+    operation starts from — for every history. -/
+theorem C17_synced_between_ops (ops : List Op) (o : Op) (ha : Asc none (ops ++ [o])) (hf : FitsRun {} (ops ++ [o])) :
+    let w := ((FileW.open true {} 0).run ops).1
+    let d := applyPrimsD ⟨w.fs, w.fs⟩ (fileOpPrims w.st w.fs w.clock o).2.1
+    d.dur = d.vol ∧ d.vol = (w.step o).1.fs := by
+  obtain ⟨ha1, _⟩ := asc_append ops o none ha
+  obtain ⟨hf1, _⟩ := fitsRun_append ops o {} hf
+  obtain ⟨ents, B, hR⟩ := fileR_run_state ops {} _ none [] [] (fileR_init true) ha1 hf1
+  have hsync : ((FileW.open true {} 0).run ops).1.st.sync = true := by
+    rw [run_sync]; simp [FileW.open, fileOpenPrims, refreshOp]
+  have key : ∀ w' : FileW, FileR (({} : AStore).run ops).1 w' (ops.foldl hiAfter none) ents B → w'.st.sync = true →
+      (applyPrimsD ⟨w'.fs, w'.fs⟩ (fileOpPrims w'.st w'.fs w'.clock o).2.1).dur
+        = (applyPrimsD ⟨w'.fs, w'.fs⟩ (fileOpPrims w'.st w'.fs w'.clock o).2.1).vol
+      ∧ (applyPrimsD ⟨w'.fs, w'.fs⟩ (fileOpPrims w'.st w'.fs w'.clock o).2.1).vol = (w'.step o).1.fs := by
+    intro w' hR' hs'
+    refine ⟨?_, ?_⟩
+    · obtain ⟨⟨c, sync, opened⟩, fs, clock⟩ := w'
+      have hop := hR'.opened
+      have hfs := hR'.fs
+      simp only at hs' hop hfs
+      subst hs'; subst hop; subst hfs
+      exact synced_after _ c clock _ ents B o hR'
+    · rw [applyPrimsD_vol]
+      cases o <;> rfl
+  exact key _ hR hsync
 
 /-! ## SQL -/
 
@@ -115,14 +183,15 @@ private theorem savePrims_w : saveMessagePrims C17w_st C17w_fs1 2 C17w_msgB =
     [.write .body 5 C17w_msgB, .write .header 6 [50,44,53,44,49,50,10], .sync .body, .sync .header] := by
   simp [saveMessagePrims, C17w_st, C17w_fs1, C17w_msgB, len, hl_2_5_12, syncBH]
 
-/-- torn index line, cut inside the offset: retrieval over the whole range fails although save 1 had completed -/
+/-- why `dropIncompleteIndexLine` is needed — the raw image with a torn index line, cut inside the offset: reading the header as it
+    is fails although save 1 had completed (a fresh store now truncates the header first: `C17_partial`) -/
 theorem C17_witness_torn_header_fails :
     let img := crashImage ⟨C17w_fs1, C17w_fs1⟩ (saveMessagePrims C17w_st C17w_fs1 2 C17w_msgB) 1 3 .process
     fileIterate (img.header.getD []) (img.body.getD []) 0 C17w_bigE 0 = ([[65,65,65,65,65]], .err) := by
   simp only [savePrims_w]
   decide
 
-/-- torn index line, cut inside the size: one byte of a 12-byte message is returned for number 2 -/
+/-- … cut inside the size: read as it is, one byte of a 12-byte message is returned for number 2 -/
 theorem C17_witness_torn_header_bytes :
     let img := crashImage ⟨C17w_fs1, C17w_fs1⟩ (saveMessagePrims C17w_st C17w_fs1 2 C17w_msgB) 1 5 .process
     fileIterate (img.header.getD []) (img.body.getD []) 2 2 0 = ([[66]], .ok) := by
@@ -155,16 +224,54 @@ theorem C17_fixed_order_same_point :
   simp only [savePrims_w]
   decide
 
+/-! ## the full statement is false: the torn counter on a reachable state -/
+
+private theorem torn19 (H B : Bytes) (ct T : Nat) :
+    (viewOf (crashImage ⟨goodFS H B ct 9 T, goodFS H B ct 9 T⟩ (setSeqNumPrims true .sender 10) 0 18 .process)).1 = 19 := by
+  have e9 : fmt019 ((9 : Nat) : Int) = [48,48,48,48,48,48,48,48,48,48,48,48,48,48,48,48,48,48,57] := fmt019_9
+  simp only [setSeqNumPrims, goodFS, e9, fmt019_10]
+  rfl
+
+/-- history `setS 9` then `incS`, the process dies after 18 of the 19 bytes of the counter rewrite "…09" → "…10": the file
+    reads "…19"; a fresh store reports NextSenderMsgSeqNum = 19, neither 9 nor 10.  (Replayed on the real store: corpus/C17/crash.ops
+    case 1.) -/
+theorem C17_full_false : ¬ C17_full := by
+  intro hfull
+  have ha : Asc none ([Op.setS 9] ++ [Op.incS]) := by simp [Asc, ascendingOk, hiAfter]
+  have hf : FitsRun {} ([Op.setS 9] ++ [Op.incS]) := by simp [FitsRun, Fits, AStore.step, totalLen, maxInt]
+  have hc := (hfull [.setS 9] .incS 0 18 .process ha hf).2.1
+  -- the state after `setS 9`
+  obtain ⟨ha1, _⟩ := asc_append [Op.setS 9] .incS none ha
+  obtain ⟨hf1, _⟩ := fitsRun_append [Op.setS 9] .incS {} hf
+  obtain ⟨ents, B, hR⟩ := fileR_run_state [Op.setS 9] {} _ none [] [] (fileR_init true) ha1 hf1
+  have hsync : ((FileW.open true {} 0).run [Op.setS 9]).1.st.sync = true := by
+    rw [run_sync]; simp [FileW.open, fileOpenPrims, refreshOp]
+  have hs9 : (({} : AStore).run [Op.setS 9]).1 = { sender := 9 } := by simp [AStore.run, AStore.step]
+  rw [hs9] at hR hc
+  simp only [C17_recovered, C17_view, recoveredView_eq] at hc
+  generalize ((FileW.open true {} 0).run [Op.setS 9]).1 = w at hc hR hsync
+  obtain ⟨⟨c, sync, opened⟩, fs, clock⟩ := w
+  have hfs := hR.fs
+  have hcs := hR.cs
+  simp only at hsync hfs hcs
+  subst hsync; subst hfs
+  have hc9 : c.nextS + 1 = 10 := by rw [hcs]; rfl
+  simp only [fileOpPrims, hc9] at hc
+  rw [torn19] at hc
+  simp [AStore.step] at hc
+
 /-!
 Clause checklist (properties.jsonl C17 → here)
 * "reopening the store succeeds": the model's open cannot fail (no I/O errors modelled); monitor clause `reopen_fails` on the real store.
-* "every message whose save had completed is returned intact": FALSE inside the index-line write (C17_witness_torn_header_fails)
-  and in Reset's remove-body/remove-header window (known finding, crash family); the original index-before-body order
-  (C17_witness_header_before_body_orig) is fixed (C17_fixed_order_same_point, C17_partial_save_boundary, C17_partial_save_power).
-* "each recovered counter equals its value before or after": FALSE inside the 19-byte rewrite (C17_witness_torn_counter);
-  holds between primitives (C17_partial_counter_boundary) and for power loss (C17_power_cut_irrelevant + boundary).
-* "no torn or foreign bytes": FALSE for an index line cut inside its size field (C17_witness_torn_header_bytes).
-* "used ⇒ retrievable": order of SaveMessage / IncrNextSenderMsgSeqNum — monitor clause `used_not_retrievable` (never failed).
+* "every message whose save had completed is returned intact", "each recovered counter equals its value before or after",
+  "used ⇒ retrievable", "no torn or foreign bytes": `C17_partial` — the whole conclusion (`C17_conclusion`) for EVERY history, every
+  operation, every crash point and cut of a process crash except inside a counter rewrite, and every power-loss point (syncing on;
+  its premise is `C17_synced_between_ops`).  The recovered view is what a fresh store reports (`C17_view`, through `recoveredView_eq`).
+* the full statement `C17_full` is false: `C17_full_false` (torn 19-byte counter on the history `setS 9; incS`; known finding).
+* the three fixes the model follows: body before index line (`saveMessagePrims` vs `saveMessagePrimsOrig`,
+  `C17_witness_header_before_body_orig`, `C17_fixed_order_same_point`), header removed before body in Reset (`removePrims` vs
+  `removePrimsOrig`), incomplete trailing index line dropped on open (`truncPrims`; raw images: `C17_witness_torn_header_fails`,
+  `C17_witness_torn_header_bytes`).  `C17_partial` is about the fixed code and would not hold for the original.
+* building blocks kept: C17_power_cut_irrelevant, C17_partial_counter_boundary, C17_partial_save_boundary, C17_partial_save_power.
 * SQL: C17_sql_atomic.
-* full statement: `C17_full` (def, not proved; the recovered-view half of `C17_partial` needs the parse lemmas of C16_file_full).
 -/
